@@ -16,6 +16,9 @@ def dispatch(pid: str, tier: str) -> int:
     if pid in ('C05', 'C06', 'C07', 'C19'):
         from harness import check_store
         return getattr(check_store, pid.lower())(tier)
+    if pid == 'C08':
+        from harness import check_select
+        return check_select.c08(tier)
     raise MachineryError(f'no check for {pid}')
 
 
